@@ -95,7 +95,8 @@ class Fn:
 
     @property
     def name(self):
-        return self.rec.get("name", "")
+        # a function recognised as a renamed anchor keeps the name the rules (and the frozen baselines) know it by
+        return self.rec.get("_known_as") or self.rec.get("name", "")
 
     @property
     def vis(self):
@@ -177,6 +178,10 @@ class Fn:
             if "r" in f:
                 if rx.search(f["r"] or "") or rx.search(f["d"] or ""):
                     out.append(i)
+                else:
+                    old = self.prog.old_name_of(f["r"]) if f["r"] else None
+                    if old and rx.search(old):
+                        out.append(i)
         return out
 
     def reachable(self, starts, avoid_blocks=(), avoid_edges=(), unwind=False):
@@ -572,7 +577,65 @@ class Program:
         cands = [i for i in self._by_name.get(parts[-1], ()) if i.startswith(crate + "::") and i.endswith("::" + tail2)]
         if len(cands) == 1:
             return self.fns[cands[0]]
+        r = self._renamed(path)
+        if r is not None:
+            return r
         raise AnchorMissing("function anchor not found: %s (candidates: %s)" % (path, cands[:4]))
+
+    _sig_tables = None
+    _aliases = None
+
+    def old_name_of(self, fid):
+        """If `fid` is a function that exists only since the pinned tree and is recognised as a renamed anchor, the name
+        the rules know it by (so callee patterns keep matching its call sites)."""
+        if self._aliases is None:
+            self._aliases = {}
+            self._renamed("")  # load tables
+            sigs, known = Program._sig_tables
+            if known is not None:
+                for old in sigs:
+                    if old not in self.fns:
+                        r = self._renamed(old)
+                        if r is not None:
+                            self._aliases[r.id] = old
+        return self._aliases.get(fid)
+
+    def _renamed(self, path):
+        """A named function vanished.  If the pinned tree's signature of that function is on record and exactly ONE function
+        of the same crate that did not exist on the pinned tree has that signature (and, for methods, the same Self type),
+        it is the same function under a new name / in a new place: a rename is behaviour-preserving and must not raise an
+        alarm.  Anything less unambiguous stays fail-closed."""
+        if Program._sig_tables is None:
+            base = os.path.dirname(os.path.abspath(__file__))
+            try:
+                with open(os.path.join(base, "anchor_sigs.json")) as fh:
+                    sigs = json.load(fh)
+                with open(os.path.join(base, "known_all_fns.txt")) as fh:
+                    known = set(l.strip() for l in fh if l.strip())
+            except (OSError, ValueError):
+                sigs, known = {}, None
+            Program._sig_tables = (sigs, known)
+        sigs, known = Program._sig_tables
+        want = sigs.get(path)
+        if want is None or known is None:
+            return None
+        crate = path.split("::", 1)[0]
+        cands = []
+        for fid, f in self.fns.items():
+            if f.is_closure() or not fid.startswith(crate + "::") or fid in known:
+                continue
+            try:
+                sig = [list(f.locals[1:f.argc + 1]), f.locals[0]]
+            except Exception:
+                continue
+            if sig == want:
+                cands.append(fid)
+        if len(cands) == 1:
+            self.renamed = getattr(self, "renamed", {})
+            self.renamed[path] = cands[0]
+            self.fns[cands[0]].rec["_known_as"] = path.rsplit("::", 1)[-1]
+            return self.fns[cands[0]]
+        return None
 
     def fn_opt(self, path):
         try:
